@@ -5,7 +5,8 @@
 EXTENDS Integers, Sequences, TLC, Json
 CONSTANT Tier
 \* script 7: passive and active checks together (the peer recovers, and the active check notices, inside the window)
-Window == [kind : {"window"}, F : {300, 600}, M : {1, 2, 3}, script : {1, 2, 3, 4, 5, 6}]
+\* M = 0: max_fails is left out of the configuration (documented default: 1)
+Window == [kind : {"window"}, F : {300, 600}, M : {0, 1, 2, 3}, script : {1, 2, 3, 4, 5, 6}]
           \cup [kind : {"window"}, F : {600}, M : {1}, script : {7}]
 Retry  == [kind : {"retry"}, D : {0, 150, 400, 1000}, I : {50, 120, 250}, passive : {FALSE, TRUE}, ups : {1, 2}]
 Limit  == [kind : {"limit"}, max : {1, 2}, ups : {1, 2}, via : {"max_connections", "unhealthy_connection_count"}]
